@@ -306,7 +306,12 @@ def build_project(spec, name="generated"):
                     two = list(progs_here.keys())[:2]
                     imp = f"{two[0]}+{two[1]}={max(progs_here[two[0]], progs_here[two[1]]) * 1.0987654321:.12g}"  # explicit outcome when both programs reach a person
                 pset.covouts[(par, pop)] = at.programs.Covout(par=par, pop=pop, progs=progs_here, cov_interaction=spec["cov_interaction"], imp_interaction=imp, baseline=base * 0.5, uncertainty=(0.01 * base if spec["uncertainty"] else None))
-        # round trip through the program book so that the set is exactly what the loader produces
+        # round trip through the program book so that the set is exactly what the loader produces; the set as it was
+        # built through the API is kept (pickled) so that a check can compare the two independently of the loader
+        import pickle as _pickle
+
+        pset.name = "default"
+        P._handbuilt_progset_blob = _pickle.dumps(pset)
         pset = at.ProgramSet.from_spreadsheet(pset.to_spreadsheet(), framework=fw, data=data, name="default")
         P.progsets.append(pset)
     return P
